@@ -64,7 +64,7 @@ func newRaceState() *raceState {
 }
 
 func (m *Machine) raceOn() bool {
-	return m.race != nil && m.seg == nil && m.tsSetup == nil && m.cur != nil
+	return m.race != nil && !m.racePaused && m.seg == nil && m.tsSetup == nil && m.cur != nil
 }
 
 func (m *Machine) raceVC(g *goroutine) vclock {
